@@ -51,6 +51,8 @@ def run(ctx, replay):
     ctx.model_check("MCNodeRecovery", "MCNodeRecovery_dev_commitfirst.cfg", expect="violation", timeout=600)
     # the index flush committing the series family before the index families leaves a series without index entries
     ctx.model_check("MCNodeRecovery", "MCNodeRecovery_dev_seriesfirst.cfg", expect="violation", timeout=600)
+    # ... and the log of an expired family destroyed once everything is consumed instead of acknowledged loses entries
+    ctx.model_check("MCNodeRecovery", "MCNodeRecovery_dev_expire.cfg", expect="violation", timeout=600)
     tr = os.path.join(ctx.scratch, "node.ndjson")
     scr = os.path.join(ctx.scratch, "scr-node")
     os.makedirs(scr, exist_ok=True)
